@@ -136,3 +136,17 @@ PROPS["C12"] = {
 
 PROPS["DBG"] = {"claimed": False, "patterns": ["./cryptoutils"], "harness": {"cryptoutils": ["cryptoutils/dbg.go"]}, "level_text": "", "level_note": "",
     "jobs": [{"func": "verifH_dbg_parity", "pkg": "cryptoutils", "unwind": 300, "canon_all": True}]}
+
+PROPS["C11"] = {
+    "patterns": ["./iso7816"],
+    "harness": {"iso7816": ["iso7816/c17.go", "iso7816/sm_ref.go", "iso7816/c10.go", "iso7816/c11.go"]},
+    "level_text": "Compositional: every exchange of a read passes through exactly one command helper, so instead of enumerating fault positions in a several-hundred-exchange history the response of each helper is an arbitrary byte string (every length 0..N, all bytes symbolic; empty, truncated, garbled, oversized and error-status responses are all in that space). On the real SSA of GetChallenge, ExternalAuthenticate, InternalAuthenticate, GeneralAuthenticate, MseSetAT, SelectEF, SelectAid, SelectMF, ReadBinaryFromOffset, DoAPDU, doTransceive, ParseRApdu z3 shows: no panic; success only with status 9000 (not-found only on 6A82/6283 for SELECT) and only when the length contract holds (exact for challenge/external-authenticate, at most requested for READ BINARY); returned data is exactly the response data; SelectMF tries at most two forms. With a secure-messaging session installed an arbitrary response never panics and yields no data on error (acceptance conditions are C03). One level up: ReadFile never loops beyond its chunk limit and never returns other bytes (C13), BAC installs no session on any helper error (C05).",
+    "level_note": "Claimed in part: the fail-closed behaviour of PACE and chip authentication under helper errors and reader.ReadDocument's panic-to-error conversion are not yet encoded (see DESIGN.md); multi-fault interactions are covered only as far as the per-helper contracts compose; timing is not modelled. Trusted: gosym, z3.",
+    "bounds": "response length 0,1,2,3,6,10 quick / 0..20 thorough without secure messaging; 0..4 (quick) / 0..6 with 3DES/AES secure messaging; requested lengths and offsets symbolic",
+    "outside": "longer responses; PACE/CA protocol level; reader orchestration",
+    "assumptions": [],
+    "jobs": [
+        {"func": "verifH_C11_helper", "pkg": "iso7816", "params": {"N": [0, 1, 2, 3, 6, 10], "helper": [0, 1, 2, 3, 4, 5, 6, 7, 8]}, "params_thorough": {"N": list(range(0, 21))}, "unwind": 80, "expect_reach": ["ok", "returned"]},
+        {"func": "verifH_C11_helper_sm", "pkg": "iso7816", "params": {"N": [0, 1, 2, 3, 4], "helper": [0, 8], "alg": [0]}, "params_thorough": {"N": [0, 1, 2, 3, 4, 5, 6], "helper": [0, 5, 8], "alg": [0, 1]}, "unwind": 80, "expect_reach": ["returned"]},
+    ],
+}
